@@ -254,19 +254,6 @@ fn table_of(nests: &[&Nest]) -> NA {
 	t
 }
 
-/// which nests were applied, observed on `nest_jar(remap = false)`: the class gained an InnerClasses entry naming itself
-fn all_kept_observed(jar: &PJ, ns: &NA) -> bool {
-	let before: IndexMap<JavaString, usize> = jar_classes(jar).into_iter().map(|c| (c.name.as_inner().to_owned(), c.inner_classes.map_or(0, |v| v.len()))).collect();
-	let Ok(out) = dukenest::nest_jar(false, jar, clone_nests(ns)) else { return false };
-	let after = jar_classes(&out);
-	ns.all.values().all(|n| {
-		// a class that is not in the source jar can still be nested: when it was synthesised as an enclosing class before
-		let b = before.get(n.class_name.as_inner()).copied().unwrap_or(0);
-		after.iter().any(|c| c.name == n.class_name && c.inner_classes.as_ref().is_some_and(|v|
-			v.len() == b + 1 && v.last().is_some_and(|ic| ic.inner_class.as_inner() == n.class_name.as_inner())))
-	})
-}
-
 fn clean(s: &JavaStr) -> bool { !s.is_empty() && !s.contains(';') }
 
 fn desc_names(d: &JavaStr, out: &mut Vec<JavaString>) {
@@ -419,6 +406,62 @@ fn spec_inner_name(class: &JavaStr, inner: &JavaStr, mapped: &JavaStr) -> Option
 	} else { Some(inner.to_owned()) }
 }
 
+/// can the mappings-side names be read through `apply_nests_to_mappings` on a mapping set that only holds the probe class?
+/// Decided from the request alone: the table must be translatable through a mapping set that maps every class to itself
+/// (`__` splits as the property describes, anonymous `C_<n>` names numeric, enclosing-method descriptors well formed) and the
+/// translated table must be acyclic too. Mirrors `observable` of Driver/C14.lean.
+fn spec_observable(ns: &NA) -> bool {
+	let none = NA::default();
+	let mut mapped = NA::default();
+	for n in ns.all.values() {
+		let class = n.class_name.as_inner();
+		let (encl, inner) = match class.rsplit_once("__") {
+			Some((e, i)) => {
+				if e.ends_with('/') || i.starts_with('/') { return false; }
+				(e.to_owned(), i.to_owned())
+			}
+			None => match spec_inner_name(class, n.inner_name.as_inner(), class) {
+				Some(i) => (n.encl_class_name.as_inner().to_owned(), i),
+				None => return false,
+			},
+		};
+		if let Some(m) = &n.encl_method { if spec_desc(&none, m.desc.as_inner()).is_none() { return false; } }
+		let t = Nest { nest_type: n.nest_type, class_name: n.class_name.clone(), encl_class_name: cn(encl), encl_method: n.encl_method.clone(), inner_name: cn(inner), inner_access: n.inner_access };
+		mapped.all.insert(t.class_name.clone(), t);
+	}
+	!cyclic(&mapped)
+}
+
+/// a SUFFICIENT condition, decided from the request, for `apply_nests_to_mappings(m, ns)` to succeed on an acyclic table: every
+/// class has a second name, every descriptor is well formed, and the table translates without any of the special cases of
+/// `map_nests` (no `__` in a translated nest name, no non-numeric `C_…` target of an anonymous class) into an acyclic table.
+/// Inside, an error of `apply` is a failure of the round-trip oracle instead of "outside the domain".
+fn spec_apply_must_succeed(m: &MM, ns: &NA) -> bool {
+	let none = NA::default();
+	let desc_ok = |d: &JavaStr| spec_desc(&none, d).is_some();
+	let mut to: IndexMap<JavaString, JavaString> = IndexMap::new();
+	for (k, c) in &m.classes {
+		let names: &[Option<ObjClassName>; 2] = (&c.info.names).into();
+		let Some(dst) = names[1].as_ref() else { return false };
+		if !clean(dst.as_inner()) { return false; }
+		to.insert(k.as_inner().to_owned(), dst.as_inner().to_owned());
+		if !c.fields.values().all(|f| desc_ok(f.info.desc.as_inner())) || !c.methods.values().all(|f| desc_ok(f.info.desc.as_inner())) { return false; }
+	}
+	let tr = |c: &JavaStr| to.get(c).cloned().unwrap_or_else(|| c.to_owned());
+	let mut mapped = NA::default();
+	for n in ns.all.values() {
+		let class = tr(n.class_name.as_inner());
+		if class.contains("__") { return false; }
+		let digits_only = n.inner_name.as_inner().chars().all(|c| c.is_ascii_digit());
+		if digits_only && simple_name(&class).starts_with("C_") { return false; }
+		if let Some(md) = &n.encl_method { if !desc_ok(md.desc.as_inner()) { return false; } }
+		let t = Nest { nest_type: n.nest_type, class_name: cn(class), encl_class_name: cn(tr(n.encl_class_name.as_inner())), encl_method: None,
+			inner_name: n.inner_name.clone(), inner_access: n.inner_access };
+		mapped.all.insert(t.class_name.clone(), t);
+	}
+	!cyclic(&mapped)
+}
+
 // ------------------------------------------------------------------------------------------------ exec
 
 fn exec(op: &str, args: &[Sexp]) -> Ans {
@@ -441,9 +484,13 @@ fn exec(op: &str, args: &[Sexp]) -> Ans {
 		}
 		("nest-name-map", [ns, c]) => {
 			let ns = tr!(nests_from(ns)); let c = tr!(c.as_jstring());
-			// building the remapper is all `undo` does with an empty mapping set: an error here is the cyclic-table error
-			if dukenest::undo_nests_to_mappings(empty_mappings(), &ns).is_err() { return Ans::err(); }
-			match map_names_via(empty_mappings(), &ns, &[c]) { Ok((v, _)) => Ans::Ok(Sexp::jstr(&v[0])), Err(_) => Ans::Skip("unobservable".into()) }
+			// a cyclic table (decided on the request) is an error; building the remapper is all `undo` does with an empty mapping set
+			if cyclic(&ns) {
+				return match safe_undo(empty_mappings(), &ns) { Applied::Ok(_) => Ans::ok_tag("cyclic_table_accepted"), Applied::Err => Ans::err(), Applied::Panic => Ans::Err("panic".into()) };
+			}
+			// the name is read through a probe class; whether that works is decided on the request (both sides skip the same lines)
+			if !spec_observable(&ns) { return Ans::Skip("unobservable".into()); }
+			match map_names_via(empty_mappings(), &ns, &[c]) { Ok((v, _)) => Ans::Ok(Sexp::jstr(&v[0])), Err(Applied::Panic) => Ans::Err("panic".into()), Err(_) => Ans::err() }
 		}
 		// kept for the replay of the fixed finding 0532d54 (a cyclic table used to overflow the stack here)
 		("nest-name-map-unguarded", [ns, c]) => {
@@ -467,33 +514,44 @@ fn exec(op: &str, args: &[Sexp]) -> Ans {
 		}
 		("oracle-names-agree", [ns, jar]) => {
 			let ns = tr!(nests_from(ns)); let jar = tr!(jar_from(jar));
-			if cyclic(&ns) || jar_classes(&jar).is_empty() { return Ans::out_of_domain(); }
-			if !all_kept_observed(&jar, &ns) { return Ans::out_of_domain(); }
+			let classes = jar_classes(&jar);
+			if cyclic(&ns) || classes.is_empty() { return Ans::out_of_domain(); }
+			// every entry applies: decided by the state-free specification of the filter, not by running `nest_jar`
+			if spec_filter(&classes, &ns).0.len() != ns.all.len() { return Ans::out_of_domain(); }
 			let mut names: Vec<JavaString> = Vec::new();
 			for n in ns.all.values() { names.push(n.class_name.as_inner().to_owned()); names.push(n.encl_class_name.as_inner().to_owned()); }
-			for c in jar_classes(&jar) { names.push(c.name.as_inner().to_owned()); }
+			for c in &classes { names.push(c.name.as_inner().to_owned()); }
 			let names = dedup(names);
 			if !names.iter().all(|n| clean(n)) { return Ans::out_of_domain(); }
-			let Ok((map_side, _)) = map_names_via(empty_mappings(), &ns, &names) else { return Ans::out_of_domain() };
+			if !spec_observable(&ns) { return Ans::out_of_domain(); }
+			let Ok((map_side, _)) = map_names_via(empty_mappings(), &ns, &names) else { return Ans::fail("map_side_unobservable") };
 			let Some(jar_side) = jar_names_via(&jar, &ns, &names) else { return Ans::fail("jar_side_unobservable") };
-			if map_side == jar_side { Ans::pass() } else { Ans::fail("names_differ") }
+			if map_side != jar_side { return Ans::fail("names_differ") }
+			// and both are the name the property states (`mapName_spec`)
+			if names.iter().zip(&map_side).all(|(n, got)| &spec_name(&ns, n) == got) { Ans::pass() } else { Ans::fail("not_enclosing_dollar_inner") }
 		}
 		("oracle-undo-apply", [m, ns]) => {
 			let ns = tr!(nests_from(ns)); let m: MM = tr!(from_sexp(m));
 			if !wf_mappings(&m) { return Ans::out_of_domain(); }
 			let used = used_names(&m);
 			if !used.iter().all(|n| clean(n)) { return Ans::out_of_domain(); }
+			// the table is acyclic, the nested names it produces can be written into a descriptor and the translation is injective
+			// on the names the set uses: all of it evaluated on the names the PROPERTY states (`spec_name`), not on what the code produced
+			if cyclic(&ns) { return Ans::out_of_domain(); }
 			let keys: Vec<JavaString> = ns.all.keys().map(|k| k.as_inner().to_owned()).collect();
-			let mut all = used.clone(); all.extend(keys.iter().cloned());
-			let view = src_view(&m);
-			let (trs, applied) = match map_names_via(m, &ns, &all) { Ok(x) => x, Err(_) => return Ans::out_of_domain() };
-			let (tr_used, tr_keys) = trs.split_at(used.len());
+			let tr_keys: Vec<JavaString> = keys.iter().map(|k| spec_name(&ns, k)).collect();
 			if !tr_keys.iter().all(|t| clean(t)) { return Ans::out_of_domain(); }
-			for (c, tc) in used.iter().zip(tr_used) {
-				for (k, tk) in keys.iter().zip(tr_keys) {
-					if tc == tk && c != k { return Ans::out_of_domain(); }
+			for c in &used {
+				let tc = spec_name(&ns, c);
+				for (k, tk) in keys.iter().zip(&tr_keys) {
+					if &tc == tk && c != k { return Ans::out_of_domain(); }
 				}
 			}
+			let view = src_view(&m);
+			// sets that cannot be nested at all (no second name, malformed descriptors, untranslatable table) are outside; but where
+			// the request alone shows that nesting must succeed, an error is a failure
+			let must = spec_apply_must_succeed(&m, &ns);
+			let Applied::Ok(applied) = safe_apply(m, &ns) else { return if must { Ans::fail("apply_err") } else { Ans::out_of_domain() } };
 			match safe_undo(applied, &ns) {
 				Applied::Ok(back) => if src_view(&back) == view { Ans::pass() } else { Ans::fail("differs") },
 				_ => Ans::fail("undo_err"),
@@ -701,7 +759,11 @@ fn exec(op: &str, args: &[Sexp]) -> Ans {
 			for n in ns.all.values() {
 				let Ok(mapped) = rem.map_class(&n.class_name) else { return Ans::fail("map_class") };
 				let (encl, inner) = match mapped.as_inner().rsplit_once("__") {
-					Some((e, i)) => (cn(e.to_owned()), cn(i.to_owned())),
+					Some((e, i)) => {
+						// `q/__In` / `q/Out__/In`: neither half is a class name, such a nest cannot be translated
+						if e.ends_with('/') || i.starts_with('/') { return Ans::fail("invalid_split_accepted") }
+						(cn(e.to_owned()), cn(i.to_owned()))
+					}
 					None => {
 						let Ok(e) = rem.map_class(&n.encl_class_name) else { return Ans::fail("map_encl") };
 						let Some(i) = spec_inner_name(n.class_name.as_inner(), n.inner_name.as_inner(), mapped.as_inner()) else { return Ans::fail("inner_name_but_ok") };
@@ -1119,6 +1181,71 @@ fn gen(r: &mut Rng, tier: Tier, out: &mut Out) {
 				out.op("oracle-cyclic-err", &[nss.clone()]);
 			}
 		} } } }
+	}
+	// exhaustive small scope 4: the table is ONE chain that uses every row (length 1..6: the deepest recursion a table of that
+	// size allows, one level below the cycle guard), in three table orders, every nest applicable
+	for len in 1..=6usize {
+		for order in 0..3 {
+			for anon_leaf in [false, true] {
+				let name = |i: usize| if i == len { "p/Top".to_owned() } else { format!("c/K{i}") };
+				let mut ns: Vec<GNest> = (0..len).map(|i| GNest { kind: if i == 0 && anon_leaf { 'a' } else { 'i' }, class: name(i), encl: name(i + 1), method: None,
+					inner: if i == 0 && anon_leaf { "1".into() } else { format!("I{i}") }, access: 8 }).collect();
+				match order { 0 => {}, 1 => ns.reverse(), _ => ns.rotate_left(len / 2) }
+				let jar: Vec<GEntry> = (0..=len).map(|i| GEntry::Class(format!("{}.class", name(i)), GClass::new(&name(i), 8))).collect();
+				let fld = |j: usize, d: &str| Sexp::list(vec![Sexp::str(&format!("f{j}")), Sexp::str(d), Sexp::str(d),
+					Sexp::list(vec![Sexp::list(vec![Sexp::str(&format!("f{j}"))]), Sexp::list(vec![])]), Sexp::list(vec![])]);
+				let items: Vec<Sexp> = (0..=len).map(|i| Sexp::list(vec![Sexp::str(&name(i)),
+					Sexp::list(vec![Sexp::list(vec![Sexp::str(&name(i))]), Sexp::list(vec![Sexp::str(&format!("t/T{i}"))])]), Sexp::list(vec![]),
+					Sexp::list(vec![fld(0, &format!("L{};", name(0))), fld(1, &format!("[L{};", name(len / 2)))]), Sexp::list(vec![])])).collect();
+				let m = Sexp::list(vec![Sexp::list(vec![Sexp::str("official"), Sexp::str("named")]), Sexp::list(vec![]), Sexp::list(items)]);
+				let (nss, js) = (nests_sexp(&ns), jar_sexp(&jar));
+				out.stats.hit("exhaustive:whole-table-chain");
+				for i in [0, len / 2, len] {
+					out.op("nest-name-map", &[nss.clone(), Sexp::str(&name(i))]);
+					out.op("nest-name-jar", &[nss.clone(), js.clone(), Sexp::str(&name(i))]);
+				}
+				out.op("oracle-names-agree", &[nss.clone(), js.clone()]);
+				out.op("oracle-cyclic-err", &[nss.clone()]);
+				out.op("nest-jar", &[Sexp::bool(true), nss.clone(), js.clone()]);
+				out.op("oracle-remap-names", &[nss.clone(), js.clone()]);
+				out.op("oracle-remap-attrs", &[nss.clone(), js.clone()]);
+				out.op("apply-nests", &[m.clone(), nss.clone()]);
+				out.op("oracle-apply-spec", &[m.clone(), nss.clone()]);
+				out.op("oracle-undo-apply", &[m.clone(), nss.clone()]);
+				out.op("map-nests", &[nss.clone(), m.clone()]);
+				out.op("oracle-map-nests-spec", &[nss.clone(), m.clone()]);
+			}
+		}
+	}
+	// exhaustive small scope 5: where the last `__` of a translated (or listed) class name falls: plain split, an inner half that
+	// starts with `/`, an enclosing half that ends with `/`, empty halves, several `__`
+	for target in ["q/Out__In", "q/Out__/In", "q/__In", "q/a__b__/c", "q/a__/b__c", "Out__p/In", "q/Out__", "__In", "q/Out___In", "q/Out_In"] {
+		for (kind, inner) in [('i', "In"), ('a', "3"), ('l', "1In")] {
+			for two in [false, true] {
+				let mut ns = vec![GNest { kind, class: "A".into(), encl: "B".into(), method: if kind == 'l' { Some(("m".into(), "()V".into())) } else { None }, inner: inner.into(), access: 1 }];
+				if two { ns.push(GNest { kind: 'i', class: "B".into(), encl: "C".into(), method: None, inner: "Mid".into(), access: 0 }); }
+				let item = |c: &str, d: &str| Sexp::list(vec![Sexp::str(c), Sexp::list(vec![Sexp::list(vec![Sexp::str(c)]), Sexp::list(vec![Sexp::str(d)])]),
+					Sexp::list(vec![]), Sexp::list(vec![]), Sexp::list(vec![])]);
+				let m = Sexp::list(vec![Sexp::list(vec![Sexp::str("official"), Sexp::str("named")]), Sexp::list(vec![]),
+					Sexp::list(vec![item("A", target), item("B", "q/B"), item("C", "q/C")])]);
+				let nss = nests_sexp(&ns);
+				out.stats.hit("exhaustive:last-double-underscore");
+				out.op("map-nests", &[nss.clone(), m.clone()]);
+				out.op("oracle-map-nests-spec", &[nss.clone(), m.clone()]);
+				out.op("apply-nests", &[m.clone(), nss.clone()]);
+				out.op("oracle-apply-spec", &[m.clone(), nss.clone()]);
+				out.op("oracle-undo-apply", &[m.clone(), nss.clone()]);
+				// the same name as the listed class itself: translated through a set that does not mention it
+				let mut ns2 = ns.clone(); ns2[0].class = target.into();
+				let nss2 = nests_sexp(&ns2);
+				out.op("nest-name-map", &[nss2.clone(), Sexp::str(target)]);
+				out.op("map-nests", &[nss2.clone(), m.clone()]);
+				out.op("oracle-map-nests-spec", &[nss2.clone(), m.clone()]);
+				let jar = vec![GEntry::Class(format!("{target}.class"), GClass::new(target, 8)), { let mut b = GClass::new("B", 8); b.methods.push(("m".into(), "()V".into())); GEntry::Class("B.class".into(), b) },
+					GEntry::Class("C.class".into(), GClass::new("C", 8))];
+				out.op("oracle-names-agree", &[nss2, jar_sexp(&jar)]);
+			}
+		}
 	}
 	// fixed edge cases
 	for t in ["", "\n", "a\tb\t\t\t1\t0", "a\tb\t\t\t1\t0\r", "a\tb\t\t\t1\t0\r\n", "a\tb\t\t\t1\t0\n\n", "a\tb\tm\t()V\t1Foo\t0x1a\na\tc\t\t\tFoo\t1\n",
